@@ -11,7 +11,7 @@ import (
 func init() { register("C16", checkC16) }
 
 func checkC16(r *Run) {
-	r.Explain = "Decides three narrow structural clauses of C16, and says plainly that rendering is not decided: A22 determinism — no map iteration order reaches the output: inside a range over a map nothing is written to a buffer or writer, and a slice filled in such a loop is sorted (sort.Strings / sort.Slice, possibly through a helper, whose comparator falls back to `<` on the two names) on every path before any other use; LEN on the success path ConsoleWriter.Write reports len(p) of the input (in the JSON build the decode hook is the identity); LEN also: no return with a nil error skips writing the line; QUOTE the predicate choosing between verbatim and strconv.Quote rendering is a byte scan whose per-byte decision, evaluated over all 256 byte values from its branch conditions, is true exactly for control, non-ASCII, space, backslash and quote bytes, and its call site quotes on the true branch only; TIMELOC every Format call of the default timestamp formatter is applied to a time that went through In(TimeLocation) on that path; ONCE the field-collecting loop appends each non-excluded, non-part key exactly once per iteration, and the output loop ranges over all collected fields without early exit and writes each name exactly once. A13d (shared with C06): the pooled buffer is emptied before it is returned; LVLTAB (shared with C04): the level tables behind ParseLevel; nested values are re-encoded with InterfaceMarshalFunc."
+	r.Explain = "Decides three narrow structural clauses of C16, and says plainly that rendering is not decided: A22 determinism — no map iteration order reaches the output: inside a range over a map nothing is written to a buffer or writer, and a slice filled in such a loop is sorted (sort.Strings / sort.Slice, possibly through a helper, whose comparator falls back to `<` on the two names) on every path before any other use; LEN on the success path ConsoleWriter.Write reports len(p) of the input (in the JSON build the decode hook is the identity); LEN also: no return with a nil error skips writing the line; QUOTE the predicate choosing between verbatim and strconv.Quote rendering is a byte scan whose per-byte decision, evaluated over all 256 byte values from its branch conditions, is true exactly for control, non-ASCII, space, backslash and quote bytes, and its call site quotes on the true branch only; TIMELOC every Format call of the default timestamp formatter is applied to a time that went through In(TimeLocation) on that path; ONCE the field-collecting loop appends each non-excluded, non-part key exactly once per iteration, and the output loop ranges over all collected fields without early exit and writes each name exactly once. A13d (shared with C06): the pooled buffer is emptied before it is returned; LVLTAB (shared with C04): the level tables behind ParseLevel; nested values are re-encoded with InterfaceMarshalFunc. TIMELOC also: the event's time text is parsed in the configured location (not time.Local/UTC). TSFMT (binary build): the decoder renders a fractional timestamp with a layout that has a fractional-seconds element (what ConsoleWriter is given in that build)."
 	r.NotDec = "Most of C16: value rendering, quoting (needsQuote / strconv.Quote), part formatting, the error-first move and the known disappearance of a field named \"\" when an error field is present (a sentinel collision that no non-brittle structural rule captures). These are value-level."
 	r.Assume = []string{"encoding/json decodes the event faithfully"}
 	p := r.Use("J")
@@ -26,6 +26,10 @@ func checkC16(r *Run) {
 	ruleBufferPoolClean(r, p, []string{""}) // same event + configuration → same bytes: no stale line left in the pooled buffer
 	ruleLevelTables(r, p)                   // the level part is rendered from ParseLevel of the event's level text
 	ruleConsoleMarshal(r, p)
+	if pb := r.Use("B"); pb != nil {
+		// binary build: what ConsoleWriter is given is the decoder's text of the event
+		ruleDecodedTimestampLayout(r, pb, "TSFMT")
+	}
 	r.Floor("TIMELOC", 2)
 	r.Floor("QUOTE", 4)
 	r.Floor("A22", 3)
@@ -587,11 +591,28 @@ func ruleConsoleTimeLocation(r *Run, p *Prog) {
 			collect(g)
 		}
 	}
-	n := 0
+	n, nParse := 0, 0
 	for _, g := range fns {
 		gv := p.View(g, "", nil)
 		eachInstr(gv, func(b *ssa.BasicBlock, i int, in ssa.Instruction) {
 			c, ok := in.(*ssa.Call)
+			if ok && (isCallTo(&c.Call, "time.ParseInLocation") || isCallTo(&c.Call, "time.Parse")) {
+				// a zone-less TimeFieldFormat is read in the configured location, the one it is shown in
+				okp := false
+				if isCallTo(&c.Call, "time.ParseInLocation") && len(c.Call.Args) == 3 {
+					loc := c.Call.Args[2]
+					if ld, isLd := loc.(*ssa.UnOp); isLd {
+						loc = ld.X
+					}
+					switch loc.(type) {
+					case *ssa.FreeVar, *ssa.Parameter, *ssa.Phi, *ssa.Alloc:
+						okp = true
+					}
+				}
+				nParse++
+				r.Ob("TIMELOC", originFnName(gv, c)+"/parse-in-location#"+itoa(nParse), p.Pos(c.Pos()), okp, true, tern(okp, "the event's time text is parsed in the configured location", "the event's time text is parsed in a fixed zone (time.Local / UTC) instead of the configured TimeLocation: with a zone-less TimeFieldFormat the console shows a shifted time that depends on the host's zone"))
+				return
+			}
 			if !ok || !(isCallTo(&c.Call, "(time.Time).Format") || isCallTo(&c.Call, "(time.Time).AppendFormat")) {
 				return
 			}
